@@ -145,6 +145,8 @@ class XPathNode:
         for prefix, ns in nsmap.items():
             if namespace == ns:
                 if not prefix:
+                    if not isinstance(self, ElementNode):
+                        continue  # the default namespace does not apply to attributes
                     return QName(namespace, local)
                 return QName(namespace, f"{prefix}:{local}")
         raise ElementPathKeyError(f'missing namespace prefix mapping in {self!r}')
